@@ -295,6 +295,7 @@ def run_query(b, q, mem_gb):
                 continue
             if first == 'sat':
                 r.status = 'timeout'; r.solver = sv
+                r.smt_sat = sv
                 r.detail = '%s reports a counterexample; re-solving with a SAT back end for the trace' % sv
                 continue
             # unsat: all obligations hold; now the witness (reachability) with a SAT back end
@@ -351,6 +352,12 @@ def run_query(b, q, mem_gb):
         else:
             r.status = 'ok'
         return r
+    if getattr(r, 'smt_sat', None) and r.status == 'timeout':
+        # an SMT back end found the negated obligations satisfiable but no SAT back end produced a trace within the budget:
+        # this is a solver verdict "a counterexample exists" without concrete inputs (reported as an unconfirmed violation)
+        r.status = 'fail'
+        r.failed = [('smt', '%s: verification condition satisfiable (some obligation of this query fails); no trace within the budget' % r.smt_sat)]
+        r.inputs = []
     return r
 
 
